@@ -644,6 +644,9 @@ class Cov(SingleAggregation):
 
     @classmethod
     def aggregate(cls, inputs, **kwargs):
+        # The chunk of an empty partition has no group keys and differently
+        # indexed products, it contributes nothing
+        inputs = [t for t in inputs if len(t[0])] or inputs[:1]
         return _cov_agg(_concat(inputs), **kwargs)
 
     @property
